@@ -215,6 +215,14 @@ fn props_case(ctx: &Ctx, st: &Setup, r: &mut Rng, nsteps: usize) {
                 ctx.fail("C28", "access_set_mismatch", format!("step {k} at pc={pc:#06x} ({fetched:?}): observer {got:?}, reference {want:?}"), replay_of(st, &mut build(st), &envs));
             }
         }
+        // a denied access never happened: it must not be recorded
+        if user && checks && !now_priv {
+            for (a, _) in &accessed {
+                if !in_user(*a) {
+                    ctx.fail("C28", "denied_access_recorded", format!("step {k}: user-mode step at pc={pc:#06x} ({out:?}) recorded an access to {a:#06x}, which was denied"), replay_of(st, &mut build(st), &envs));
+                }
+            }
+        }
         for (a, fl) in &accessed {
             if fl & 4 != 0 && fl & 2 == 0 {
                 ctx.fail("C28", "modified_without_written", format!("step {k}: {a:#06x} marked modified but not written"), replay_of(st, &mut build(st), &envs));
@@ -222,13 +230,18 @@ fn props_case(ctx: &Ctx, st: &Setup, r: &mut Rng, nsteps: usize) {
         }
         if matches!(out, Outcome::Err(_)) { return; }
     }
-    // untracked host accesses are not recorded
+    // untracked host accesses (reads and value-changing writes) are not recorded
     let a = pick_addr(r);
-    let before: Vec<(u16, u8)> = vec![];
-    let _ = m.sim.read_mem(a, lc3_ensemble::sim::MemAccessCtx::omnipotent());
+    let _ = m.sim.observer.take_mem_accesses().count();
+    let ctx0 = lc3_ensemble::sim::MemAccessCtx::omnipotent();
+    let _ = m.sim.read_mem(a, ctx0);
+    let b2 = 0x3000 + r.below(0x1000) as u16;
+    let old = m.sim.mem[b2].get();
+    let _ = m.sim.write_mem(b2, lc3_ensemble::sim::mem::Word::new_init(old.wrapping_add(1)), ctx0);
+    let _ = m.sim.write_mem(b2, lc3_ensemble::sim::mem::Word::new_init(old.wrapping_add(1)), ctx0);
     let after: Vec<_> = m.sim.observer.take_mem_accesses().collect();
-    if after.len() != before.len() {
-        ctx.fail("C28", "untracked_access_recorded", format!("omnipotent read of {a:#06x} was recorded by the observer"), replay_of(st, &mut build(st), &envs));
+    if !after.is_empty() {
+        ctx.fail("C28", "untracked_access_recorded", format!("untracked host accesses (read {a:#06x}, write {b2:#06x}) were recorded by the observer: {after:?}"), replay_of(st, &mut build(st), &envs));
     }
 }
 
